@@ -17,6 +17,13 @@ const (
 func init() {
 	reg("time.Now", func(e *Engine, st *State, args []Value, fn *ssa.Function) []Outcome {
 		t := e.tb
+		if e.cfg.FixedClock {
+			var loc Value = &PtrV{}
+			if g, ok := fn.Pkg.Members["localLoc"].(*ssa.Global); ok {
+				loc = e.globalPtr(g)
+			}
+			return one(st, &StructV{F: []Value{t.Int64(0), t.Int64(1_700_000_000 + unixToInternal), loc}})
+		}
 		nsec30 := t.Fresh("now.nsec", 30)
 		nsec := t.ZExt(nsec30, 64)
 		var sec *Term
